@@ -80,10 +80,14 @@ impl UiTokenCollection {
 
     pub fn add_from_regex_match(&mut self, capture: Option<Match<'_>>, token_type: UiTokenType) {
         if let Some(content) = capture {
-            if content.start() < content.end() && self.check_collision(content.start(), content.end()) {
+            /* Stored tokens are character based, collision must be checked with character positions too */
+            let start = self.get_position(content.start());
+            let end = self.get_position(content.end());
+
+            if start < end && self.check_collision(start, end) {
                 self.tokens.push(UiToken {
-                    start: self.get_position(content.start()),
-                    end: self.get_position(content.end()),
+                    start,
+                    end,
                     ui_type: token_type
                 });
             }
@@ -116,7 +120,7 @@ impl UiTokenCollection {
 
     fn check_collision(&self, start_position: usize, end_position: usize) -> bool {
         for item in self.iter() {
-            if (item.start <= start_position && item.end > start_position) || item.start < end_position && item.end >= end_position {
+            if item.start < end_position && start_position < item.end {
                 return false
             }
         }
